@@ -284,6 +284,50 @@ def check_write(case):
     return True, ["write", op, "n=%d" % n]
 
 
+def reconfig_cases(tier, seed):
+    for how in ("insert-front", "reassign", "reverse", "pop-front", "append"):
+        for op in list(WRITE_SIG) + ["get", "gets", "get_many", "gets_many"]:
+            for n in (2, 3):
+                yield (how, op, n)
+
+
+def check_reconfig(case):
+    """`caches` is the class's only configuration: after it is changed on a live object (a new primary promoted, the
+    list reassigned) reads follow the new order and writes go to the new first cache"""
+    how, op, n = case
+    log = []
+    caches = [Scripted(i, {K1} if i == n - 1 else set(), log) for i in range(n)]
+    fc = FallbackClient(list(caches))
+    fc.get(K1)                       # some traffic before the change
+    fresh = Scripted(99, set(), log)
+    if how == "insert-front":
+        fc.caches.insert(0, fresh)
+    elif how == "reassign":
+        fc.caches = [fresh] + caches[::-1]
+    elif how == "reverse":
+        fc.caches.reverse()
+    elif how == "pop-front":
+        fc.caches.pop(0)
+    else:
+        fc.caches.append(fresh)
+    order = [c.idx for c in fc.caches]
+    del log[:]
+    desc = "%s after `caches` was changed by %s (order now %r)" % (op, how, order)
+    if op in WRITE_SIG:
+        req, _opt = WRITE_SIG[op]
+        args = [(5 if (op in ("incr", "decr") and r == "value") else REQ_VALUES[r]) for r in req]
+        getattr(fc, op)(*args)
+        if [i for i, _n, _b in log] != [order[0]]:
+            raise Violation(["reconfig-write"], "%s wrote to caches %r, the first cache is %r" % (desc, [i for i, _n, _b in log], order[0]))
+    else:
+        r = getattr(fc, op)(K1) if op in ("get", "gets") else getattr(fc, op)([K1, K2])
+        holder = next((c.idx for c in fc.caches if K1 in c.present), None)
+        want = order if holder is None else order[:order.index(holder) + 1]
+        if [i for i, _n, _b in log] != want:
+            raise Violation(["reconfig-read"], "%s consulted %r, expected %r" % (desc, [i for i, _n, _b in log], want))
+    return True, ["reconfigured", how]
+
+
 # ---- real Clients over the fake network ---------------------------------------------------
 
 
@@ -386,6 +430,7 @@ def check_write_real(case):
 PARTS = [
     Part("reads-scripted", "enum", check_read, cases=read_cases, shards={"quick": 2, "thorough": 2}, exhaustive=True),
     Part("writes-scripted", "enum", check_write, cases=write_cases, shards={"quick": 2, "thorough": 2}, exhaustive=True),
+    Part("reconfigured-cache-list", "enum", check_reconfig, cases=reconfig_cases, shards={"quick": 1, "thorough": 1}, exhaustive=True),
     Part("reads-real", "enum", check_read_real, cases=read_real_cases, shards={"quick": 4, "thorough": 4}, exhaustive=True),
     Part("writes-real", "enum", check_write_real, cases=write_cases, shards={"quick": 4, "thorough": 4}, exhaustive=True),
 ]
